@@ -109,7 +109,7 @@ def showE (s : ESt) : String :=
 /-! re-delivery of Event::HTLCIntercepted (Model/InterceptRegen.lean) -/
 def optNat (s : String) : Option Nat := if s == "-" then none else some (nat! s)
 def parseIOp (s : String) : Option IOp :=
-  if s == "p" then some .persist else if s == "c" then some .crash
+  if s == "p" then some .persist else if s == "c" then some .crash else if s == "cr" then some .crashRebuild
   else if s.startsWith "h" then some (.handle (nat! (s.drop 1).toString))
   else if s.startsWith "r" then some (.resolve (nat! (s.drop 1).toString))
   else if s.startsWith "b" then some (.blocks (nat! (s.drop 1).toString))
@@ -124,9 +124,9 @@ def showI (s : ISt) : String :=
   s!"held={joinOr ((heldIds s.live).map toString)} queue={joinOr (s.live.queue.map showIcEv)} told={joinOr (s.told.map toString)}"
 
 /-- c10.  ops:
-      icpt (i<id>:<hash>:<incoming amt|->:<outgoing amt>:<outgoing cltv>:<forward scid|-> | h<k> | r<id> | b<height> | p | c)*  → `held=<ids> queue=<id/scid/hash/in/out/expiry,..> told=<ids>` (sorted)
+      icpt (i<id>:<hash>:<incoming amt|->:<outgoing amt>:<outgoing cltv>:<forward scid|-> | h<k> | r<id> | b<height> | p | c | cr)*  → `held=<ids> queue=<id/scid/hash/in/out/expiry,..> told=<ids>` (sorted)
           (Restart.irun: intercepted HTLCs held by a forwarding node; i = intercepted, h = handler accepts k HTLCIntercepted events, r = forwarded / failed by the application, b = best block becomes <height> (expiry sweep),
-           p = manager written, c = crash + restart on the production reload path)
+           p = manager written, c = crash + restart on the production reload path, cr = on the reconstruct-from-monitors path: held map empty until the HTLCs are decoded again = i tokens)
       evlife (close | timeout | h<k> | persist | crash)*  → `part=0/1 queue=<P|F[*],..> resolved=0/1 handledT=0/1`
           (Restart.erun failHtlcPushes: one single-part payment over a channel that is closed on chain; P = PaymentPathFailed, F = PaymentFailed,
            * = carries the ReleasePaymentComplete completion action)
